@@ -100,7 +100,7 @@ class C08(CheckBase):
         gd = rng.choice(bp.DIALECT_NAMES)
         dialect = rng.weighted([(6, gd), (3, None), (2, rng.choice(bp.DIALECT_NAMES)), (1, 'bogus'), (1, 'help'), (1, '')])
         listo = rng.weighted([(4, None), (5, str(rng.below(8))), (2, rng.choice(['8', '-1', 'x', '7x', '', '99999999999999999999', ' 3', '0x3']))])
-        extra = rng.weighted([(12, None), (1, '--frob'), (1, '-x'), (1, '--help'), (1, '--dialect'), (1, '--listo')])
+        extra = rng.weighted([(12, None), (1, '--frob'), (1, '-x'), (1, '--help'), (1, '--dialect'), (1, '--listo'), (1, '-h'), (1, '-l'), (1, '-d'), (1, '-D')])
         ninputs = rng.weighted([(6, 1), (2, 2), (1, 3), (1, 0)])
         inputs = [self.gen_input(rng, gd) for _ in range(ninputs)]
         delivery = rng.weighted([(6, 'file'), (2, 'stdin_file'), (2, 'stdin_pipe')]) if ninputs >= 1 else 'file'
@@ -108,7 +108,7 @@ class C08(CheckBase):
         case = {'dialect': dialect, 'listo': listo, 'extra': extra, 'inputs': inputs, 'delivery': delivery, 'fault': fault,
                 'build': list(rng.weighted(BUILDS)), 'fpos': rng.below(1000), 'errno': rng.choice(['EACCES', 'EMFILE', 'EISDIR', 'EIO', 'ENOMEM']),
                 'chunk': {'seed': rng.below(1 << 30), 'max': rng.choice([1, 2, 3, 17, 255])},
-                'opt_style': rng.choice(['sep', 'eq']), 'dashdash': rng.chance(0.05)}
+                'opt_style': rng.choice(['sep', 'eq', 'short', 'short-attached']), 'dashdash': rng.chance(0.05)}
         return case
 
     def materialise(self, ent):
@@ -136,10 +136,18 @@ class C08(CheckBase):
                 files[name] = data
         sb.reset(files)
         argv = ['bbcbasic_to_text']
-        if case['dialect'] is not None:
-            argv += (['--dialect=' + case['dialect']] if case['opt_style'] == 'eq' else ['--dialect', case['dialect']])
-        if case['listo'] is not None:
-            argv += (['--listo=' + case['listo']] if case['opt_style'] == 'eq' else ['--listo', case['listo']])
+        st = case['opt_style']
+        for long_name, short_name, val in (('dialect', 'd', case['dialect']), ('listo', 'l', case['listo'])):
+            if val is None:
+                continue
+            if st == 'eq':
+                argv += ['--%s=%s' % (long_name, val)]
+            elif st == 'short':
+                argv += ['-' + short_name, val]
+            elif st == 'short-attached' and val != '':
+                argv += ['-' + short_name + val]
+            else:
+                argv += ['--' + long_name, val]
         if case['extra']:
             argv.append(case['extra'])
         if case['dashdash']:
